@@ -262,7 +262,8 @@ def run(ctx, rep):
             ok = len(s.iterations) == 1 and preds is not None and len(preds) == 1 and len(maps) == 1 and bool(roots)
             if ok:
                 it = s.iterations[0]
-                src_ok = H.same(it.base, maps[0])
+                # the iterated map is the one the destinations were recorded in, also when a private helper fills and returns it
+                src_ok = H.same_through_helpers(sl, it.base, maps[0])
                 sel_ok = False
                 for v, oc in H.pred_views(preds[0]):
                     v = strip(v)
@@ -275,34 +276,55 @@ def run(ctx, rep):
                     for x in walk(av):
                         if x[0] == 'call' and x[1].endswith('to_string_lossy') and x[2]:
                             coll, proj = L.loop_element(x[2][0])
-                            printed_ok = printed_ok or (coll is not None and H.same(coll, maps[0]) and proj == ('1',))
+                            printed_ok = printed_ok or (coll is not None and H.same_through_helpers(sl, coll, maps[0]) and proj == ('1',))
         rep.check(ok and printed_ok, 'R5', 'selection', c.where(), 'prints the packaged directory of each selected root buildpack',
                   'the stdout print is not the for_each over the packaged dirs filtered by the selected root nodes')
     # ---- R6 ------------------------------------------------------------------------------------------
     # where the output goes: a relative --package-dir is resolved against the invocation directory (not the workspace root);
     # the default is <workspace root>/packaged
     rep.rule('R6', 'package directory: --package-dir relative to the invocation directory, default <workspace root>/packaged')
+    # stated on the effects of `execute` with absolutize_path as vocabulary: the call(s) may sit in `execute`, in a closure
+    # or in a private helper; their arguments are read in `execute`'s terms and the `Some` / `None` decision on
+    # args.package_dir may be an `unwrap_or(..)` value or a `match` / `if let` around two calls
     AP = 'libcnb_package::util::absolutize_path'
-    aps = [c for c in ex.calls if c.name == AP] + [c for g in prog.closures_of(ex) for c in g.calls if c.name == AP]
-    ok_base = ok_default = False
-    detail = 'no absolutize_path call in execute'
-    for c in aps:
-        WR = 'libcnb_package::find_cargo_workspace_root_dir'
-        pv = sl.inline_deep(sl.operand(c.fn, c.args[0]), keep=(WR,))
-        bv = sl.inline_deep(sl.operand(c.fn, c.args[1]), keep=(WR,))
-        if not any(x[0] == 'field' and x[2] == 'package_dir' for x in walk(pv)):
+    WR = 'libcnb_package::find_cargo_workspace_root_dir'
+    E6 = Effects(prog, sl, vocab={AP: ('ABSOLUTIZE', 0)})
+    is_pd = lambda v: any(x[0] == 'field' and x[2] == 'package_dir' for x in walk(v))
+
+    def is_default(dflt):
+        dflt = strip(dflt)
+        if dflt[0] == 'closure':
+            dflt = strip(sl.apply_closure(dflt, ()) or ('unknown',))
+        return dflt[0] == 'call' and dflt[1] in ('std::path::Path::join', 'std::path::PathBuf::join') and strip(dflt[2][1]) == ('const', 'packaged') \
+            and any(x[0] == 'call' and x[1] == WR for x in walk(dflt[2][0]))
+    cands = []
+    for e in H.expand(E6, ex, 'may'):
+        if e.kind != 'ABSOLUTIZE' or not e.args or len(e.args) < 2:
             continue
+        pv = sl.inline_deep(e.args[0], keep=(WR,))
+        bv = sl.inline_deep(e.args[1], keep=(WR,))
+        arm = H.option_arm(E6, e, is_pd)
+        if is_pd(pv) or arm is not None:
+            cands.append((e, pv, bv, arm))
+    ok_base = bool(cands)
+    detail = 'no absolutize_path call on the package directory reached from execute'
+    whole, some_arm, none_arm = [], [], []
+    for e, pv, bv, arm in cands:
         b = strip(bv)
-        ok_base = b[0] == 'call' and b[1] == 'std::env::current_dir' and bv[0] == 'unwrap'
-        # default: args.package_dir.unwrap_or(<workspace root>.join("packaged")), the root found from the invocation directory
+        ok_base = ok_base and b[0] == 'call' and b[1] == 'std::env::current_dir' and bv[0] == 'unwrap'
         p0 = strip(pv)
-        if p0[0] == 'call' and p0[1].endswith(('unwrap_or', 'unwrap_or_else')) and len(p0[2]) == 2:
-            dflt = strip(p0[2][1])
-            if dflt[0] == 'closure':
-                dflt = strip(sl.apply_closure(dflt, ()) or ('unknown',))
-            ok_default = dflt[0] == 'call' and dflt[1] in ('std::path::Path::join', 'std::path::PathBuf::join') and strip(dflt[2][1]) == ('const', 'packaged') \
-                and any(x[0] == 'call' and x[1] == 'libcnb_package::find_cargo_workspace_root_dir' for x in walk(dflt[2][0]))
-        detail = 'path=%s base=%s' % (vstr(pv)[:90], vstr(bv)[:60])
+        if arm is None:
+            # default: args.package_dir.unwrap_or(<workspace root>.join("packaged")), the root found from the invocation directory
+            whole.append(p0[0] == 'call' and p0[1].endswith(('unwrap_or', 'unwrap_or_else')) and len(p0[2]) == 2 and is_pd(p0[2][0]) and is_default(p0[2][1]))
+        elif arm == 'None':
+            none_arm.append(is_default(p0))
+        elif arm == 'Some':
+            some_arm.append(is_pd(p0))
+        else:
+            whole.append(False)
+        detail = '; '.join(x for x in (detail if detail.startswith('path=') else '', 'path=%s base=%s%s' % (vstr(pv)[:90], vstr(bv)[:60], ' [package_dir is %s]' % arm if arm else '')) if x)
+    # either one call on the unwrap_or value, or one call per arm of the decision on args.package_dir
+    ok_default = bool(cands) and all(whole) and all(some_arm) and all(none_arm) and (bool(whole) or (bool(some_arm) and bool(none_arm)))
     rep.check(ok_base, 'R6', 'package-dir/base', w(ex), 'a relative --package-dir is resolved against env::current_dir()',
               'the package directory is not made absolute against the invocation directory: ' + detail)
     rep.check(ok_default, 'R6', 'package-dir/default', w(ex), 'default package directory = <workspace root>/packaged',
